@@ -25,7 +25,49 @@ func init() {
 	})
 }
 
+// rx1Matrix renders which (uplink DR, offset) pairs a fresh instance accepts and what it answers.
+func rx1Matrix(cfg bandCfg) string {
+	b, err := cfg.New()
+	if err != nil {
+		return "error"
+	}
+	out := make([]byte, 0, 512)
+	for ul := 0; ul <= 15; ul++ {
+		for off := 0; off <= 7; off++ {
+			dr, err := 0, error(nil)
+			core.Guard(func() { dr, err = b.GetRX1DataRateIndex(ul, off) })
+			if err != nil {
+				out = append(out, '.')
+			} else {
+				out = append(out, byte('A'+dr))
+			}
+		}
+	}
+	return string(out)
+}
+
 func runC12(c *core.Ctx) {
+	// first thing in a fresh process: the RX1 answers of every configuration, created in a rotated order
+	var firstMatrix map[string]string
+	if c.Mine("creation-order", int64(c.Batch)) {
+		firstMatrix = map[string]string{}
+		all := allBandCfgs()
+		rot := (c.Batch * 7) % len(all)
+		for k := range all {
+			cfg := all[(k+rot)%len(all)]
+			firstMatrix[cfg.String()] = rx1Matrix(cfg)
+			c.Eval(1)
+		}
+		defer func() {
+			for k := len(all) - 1; k >= 0; k-- {
+				cfg := all[(k+rot)%len(all)]
+				c.Eval(1)
+				if now := rx1Matrix(cfg); now != firstMatrix[cfg.String()] {
+					c.Violate("C12|"+cfg.Name+"|rx1dr-depends-on-creation-order", "the RX1 data-rate answers of a fresh %s instance changed after other bands were created in the process (accepted pairs A..P = DR0..15, '.' = error):\n first %s\n later %s", cfg, firstMatrix[cfg.String()], now)
+				}
+			}
+		}()
+	}
 	cfgs := allBandCfgs()
 	for ci, cfg := range cfgs {
 		if !c.Mine("band", int64(ci)) {
